@@ -572,6 +572,8 @@ def do_item(arg):
     r = rng_for(seed, 'C09', item['id'])
     results = []
     t_start = time.time()
+    if kind == 'cli-failure':
+        return [cli_failure(item, flags)]
     try:
         with R.Scratch('c09_%s' % item['id']) as sc:
             case = gen_case(rng_for(seed, 'C09-case', item['case']), item.get('small'))
@@ -619,6 +621,8 @@ def do_item(arg):
                     if bound >= 2 and second:
                         for (i, a), (j, b) in rr.sample(second, min(len(second), item.get('budget2', 0))):
                             results.append(run_restore_schedule(prep, ('listed', {str(i): a, str(j): b}, mode), r, flags, sc, 'b', quick=quick))
+            elif kind == 'cli-failure':
+                pass
             elif kind == 'random':
                 est = 20 + 12 * prep.total
                 for s_i, spec in enumerate(item['strategies']):
@@ -656,6 +660,41 @@ def do_item(arg):
     return results
 
 
+def cli_failure(item, flags):
+    """a failed restore run the way replicat's CLI runs it (`asyncio.run(command)`, nothing keeps the loop alive afterwards)"""
+    n, chunks = item['n'], item['chunks']
+    t0 = time.time()
+    # whether a thread re-requests a slot before or after the loop object is closed is a race the harness does not control:
+    # the oracle asks whether SOME run leaves blocked threads (three tries)
+    tries = []
+    for attempt in range(3):
+        obs = S.probe_failed_restore({'n': n, 'chunks': chunks, 'seed': item.get('pseed', 0) + attempt})
+        tries.append({k: obs.get(k) for k in ('blocked', 'slots_free', 'raised')})
+        if obs.get('blocked') or 'probe_error' in obs:
+            break
+    obs['tries'] = tries
+    res = {'op': 'restore-cli', 'violations': [], 'model': [], 'item': item['id'], 'run': 0, 'case': item['id'], 'small': 'cli-failure',
+           'steps': 0, 'multi': 0, 'wall': round(time.time() - t0, 3), 'decisions': None,
+           'summary': {'op': 'restore-cli', 'n': n, 'async': False, 'chunks': chunks, 'distinct': chunks, 'files': 1, 'strategy': 'fail-first-hold-rest', 'steps': 0, 'multi': 0,
+                       'fail': 'download_stream', 'observed': obs}, 'nontrivial': True}
+    if 'probe_error' in obs:
+        res['infra_error'] = obs['probe_error']
+        return res
+    want = list(range(flags['slotBase'], flags['slotBase'] + n))
+    if obs['raised'] != 'InjectedFault':
+        res['violations'].append((f'restore:spurious-exception:{obs["raised"]}', f'failed restore raised {obs["raised"]} instead of the injected transfer error'))
+    if obs['blocked']:
+        res['violations'].append(('restore:failure-leaves-blocked-loaders',
+                                  f'restore (N={n}, {chunks} chunks) raised after one failed download; afterwards {len(obs["blocked"])} non-daemon executor thread(s) '
+                                  f'{[b[0] for b in obs["blocked"]]} stay blocked for ever in {obs["blocked"][0][1]} (the event loop is gone), free slots {obs["slots_free"]} '
+                                  f'instead of {want}: the process cannot exit'))
+    elif obs['slots_free'] != want:
+        res['violations'].append(('slots:not-restored-after-failure', f'free slots after a failed restore (CLI style): {obs["slots_free"]}, expected {want}'))
+    evs = [['begin'], ['grant']] * n + [['begin']] * n + [['finish', False], ['ret'], ['cancelWaiter'], ['begin'], ['close']]
+    res['model'].append(({'op': 'sched.accepts', 'system': 'life', 'n': n, 'jobs': chunks, 'events': evs}, {'blocked': len(obs['blocked']), 'slots_free': obs['slots_free']}, 'life'))
+    return res
+
+
 def plan(seed, tier):
     quick = tier == 'quick'
     items = []
@@ -669,6 +708,8 @@ def plan(seed, tier):
         items.append({'id': f'sh3-{rep}', 'kind': 'restore-preempt', 'case': f'sh3-{rep}', 'small': 'share3', 'bound': 1 if quick else 2, 'budget': 30 if quick else 400,
                       'budget2': 0 if quick else 300})
     items.append({'id': 'abort1', 'kind': 'random', 'case': 'ab1', 'small': 'abort1', 'strategies': [['random'], ['fifo']], 'fail_first': True, 'time_box': 40})
+    for n in ((1, 2, 3) if quick else (1, 2, 3, 5)):
+        items.append({'id': f'cli{n}', 'kind': 'cli-failure', 'case': f'cli{n}', 'n': n, 'chunks': 12 if n < 5 else 24, 'pseed': seed})
     # (ii) random / PCT on generated cases
     nrand = 40 if quick else 700
     for k in range(nrand):
@@ -682,6 +723,11 @@ def compare(kind, req, impl, m, flags):
     bad = []
     if 'error' in m:
         return [f'driver error: {m["error"]}']
+    if kind == 'life':
+        predicted = bool(m.get('ok') and m.get('stuck'))
+        if predicted != (impl['blocked'] > 0):
+            return [f'life: model (joins={m.get("joins")}) predicts blocked loaders = {predicted}, implementation left {impl["blocked"]} blocked']
+        return []
     if impl.get('hang'):
         return []          # a hung run is reported by the oracle; its trace is a prefix torn down by the controller
     if not m.get('ok'):
@@ -765,10 +811,13 @@ def run(out, drv, info):
         pass
     out.extra['model_flags'] = flags
     items = plan(out.seed, out.tier)
+    results = []
+    for it in [x for x in items if x['kind'] == 'cli-failure']:
+        results.extend(do_item((out.seed, it, flags, out.tier)))      # alone, before the pool loads the machine
+    items = [x for x in items if x['kind'] != 'cli-failure']
     args = [(out.seed, it, flags, out.tier) for it in items]
     # long items first
     args.sort(key=lambda a: 0 if a[1]['kind'] != 'random' else 1)
-    results = []
     deadline = time.time() + (150 if quick else 1500)
     with mp.get_context('fork').Pool(min(16, os.cpu_count() or 4), maxtasksperchild=8) as pool:
         it = pool.imap_unordered(do_item, args, chunksize=1)
@@ -797,7 +846,9 @@ def run(out, drv, info):
         out.count('chunks:' + ('0' if not s['chunks'] else '1-3' if s['chunks'] <= 3 else '4-8' if s['chunks'] <= 8 else '>8'))
         if s.get('fail'):
             out.count('injected-failure:' + s['fail'])
-        if s['op'] == 'restore':
+        if s['op'] == 'restore-cli':
+            out.count('cli-style-failed-restore')
+        elif s['op'] == 'restore':
             out.count('loaders:' + ('0-1' if s['loaders'] <= 1 else '2-3' if s['loaders'] <= 3 else '>3'))
             if any(p > 1 for p in s.get('loader_paths') or []):
                 out.count('chunk-shared-by-files')
@@ -827,7 +878,8 @@ def run(out, drv, info):
                 out.traces_validated += 1
                 out.count(f'accepted:{kind}')
     out.extra['schedules'] = len(results) - infra
-    if infra and infra > len(results) // 4:
+    if infra and infra > len(results) // 4 and info.get('proof_ok'):
+        # (with a broken proof the verdict is a violation anyway; an implementation that cannot even be constructed is not an infrastructure problem)
         raise RuntimeError('too many infrastructure errors: ' + str(out.extra.get('infra_errors', [])[:1]))
 
 
